@@ -142,7 +142,7 @@ theorem T_C10 (v : Variant) (attr : Toks) (item : Item) (out : Out)
     simp only [expand] at h
     split at h
     · simp at h
-    · obtain ⟨items, a, fns, tg, depMode, implBlock, _, h1, _, _, _, rfl⟩ := expandMod_ok h
+    · obtain ⟨items, a, fns0, fns, tg, depMode, implBlock, _, h1, _, hfns, _, _, rfl⟩ := expandMod_ok h
       simp only [P_C10, Item.mode, effectiveOpts, h1, Out.view, View.items, Out.inside, Out.after,
         traitsOf, mockKinds_genTraitDef, expected_fnmod _ Mode.mod_ (by decide), userMockKinds, Item.attrs, reappliedSubs,
         List.cons_append, List.nil_append]
@@ -195,7 +195,7 @@ theorem T_C10 (v : Variant) (attr : Toks) (item : Item) (out : Out)
           unfold mockKinds at hk
           simp [traitsOf, mockKinds, List.filterMap_append, hk, hpre]
   | impl m =>
-    obtain ⟨items, a, fns, tg, depMode, implBlock, _, _, _, _, _, rfl⟩ := expandImpl_ok h
+    obtain ⟨items, a, fns0, fns, tg, depMode, implBlock, _, _, _, hfns, _, _, rfl⟩ := expandImpl_ok h
     simp [P_C10, Item.mode, Out.view, View.items, Out.inside, Out.after, traitsOf]
 
 /-- non-vacuity: an exporting unimock invocation is accepted and carries an ungated unimock derivation -/
